@@ -255,3 +255,44 @@ func verifHarness_C15_read_limit() {
 	}
 	verifAssert(false, "witness")
 }
+
+// a real bomb through the real inflater: N identical bytes compressed by the
+// real codec on a sending endpoint (a handful of wire bytes), delivered to an
+// endpoint whose MessageLengthLimit is the solver's.
+func verifHarness_C15_real_inflate_bomb() {
+	n := []int{40, 300, 3000}[verifChoose("inflated_len", 3)]
+	snd := verifNewEndpoint(false, true, 0, nil)
+	snd.c.enableWriteCompression = true
+	snd.c.compressionLevel = 1
+	payload := make([]byte, n)
+	for i := range payload {
+		payload[i] = 'z'
+	}
+	if err := snd.c.WriteMessage(BinaryMessage, payload); err != nil {
+		verifFail("bomb-not-built", "")
+	}
+	wire := snd.fake.wire()
+	verifNoteInt("wire_len", len(wire))
+	// the limit is the solver's, in two windows: small, and around the inflated size
+	var limit int
+	if verifChoose("limit_window", 2) == 0 {
+		limit = verifInt("limit", 1, 70)
+	} else {
+		limit = verifInt("limit", n-20, n+2)
+	}
+	// the buffer size the receiver inflates into does not follow the limit
+	rcv := verifNewEndpoint(true, true, 0, mempool.New(64, 1<<20))
+	rcv.u.MessageLengthLimit = limit
+	nw := len(rcv.fake.writes)
+	err := rcv.c.Parse(append([]byte(nil), wire...))
+	if n > limit { // a branch: both sides are explored
+		verifReach("bomb-over-limit")
+		verifAssertD(len(rcv.msgs) == 0, "delivered-message-within-limit", "real-inflater")
+		verifAssertD(err != nil, "inflated-past-limit-fails-connection", "real-inflater")
+		verifAssertD(verifClose1009(rcv, nw), "inflated-past-limit-answered-with-1009", "real-inflater")
+	} else {
+		verifReach("bomb-within-limit")
+		verifAssertD(err == nil && len(rcv.msgs) == 1 && len(rcv.msgs[0].data) == n, "message-within-limit-is-delivered", "real-inflater")
+	}
+	verifAssert(false, "witness")
+}
